@@ -7,3 +7,33 @@ package fileutils
 //@   assumed
 //@   pure
 //@ end
+
+// C14 (retention removes expired segments and nothing else): after a segment's
+// files are deleted, the walk up its parents removes a directory only if THAT
+// directory was just found empty, and never the data path itself — a directory
+// one level higher still holds the segments of other stores.  Second view (the
+// primary contract is the frame its callers use).  Ghosts: the directory last
+// found empty, the data path as read.
+//@ ghostdecl emptyDirSeen string
+//@ ghostdecl emptyDirValid int
+//@ ghostdecl dataPathSeen string
+//@ func IsDirEmpty
+//@   assumed
+//@   pure
+//@   note frame only (ASSUMED): reads a directory
+//@ end
+//@ func RecursivelyDeleteEmptyParentDirectories @walk
+//@   props C14
+//@   ghostinit ghost(0, "emptyDirValid") == 0
+//@   site callret config.GetDataPath #1:
+//@     ghostset ghost(0, "dataPathSeen") = result
+//@   site callret IsDirEmpty #1:
+//@     ghostset ghost(0, "emptyDirSeen") = arg0
+//@     ghostset ghost(0, "emptyDirValid") = ite(result, 1, 0)
+//@   site call os.RemoveAll #1:
+//@     assert [only-the-directory-just-found-empty-is-removed-never-the-data-path] ghost(0, "emptyDirValid") == 1 && arg0 == ghost(0, "emptyDirSeen") && arg0 != ghost(0, "dataPathSeen")
+//@   site callret os.RemoveAll #1:
+//@     ghostset ghost(0, "emptyDirValid") = 0
+//@   loop 1:
+//@     invariant true
+//@ end
